@@ -41,9 +41,10 @@ def sync_timestamps(tsa, tsb, tbin=0.1, return_indices=False, linear=False):
     y = np.zeros_like(x)
     x[np.int32(np.floor((tsa - tmin) / tbin))] = 1
     y[np.int32(np.floor((tsb - tmin) / tbin))] = 1
-    delta_t = (
-        parabolic_max(scipy.signal.correlate(x, y, mode="full"))[0] - x.shape[0] + 1
-    ) * tbin
+    # an offset that is not a multiple of tbin splits the true peak over two neighbouring lags, either of which can then
+    # tie with a spurious lag: weigh the neighbouring lags in before picking the maximum
+    xcorr = np.convolve(scipy.signal.correlate(x, y, mode="full"), [0.5, 1.0, 0.5], mode="same")
+    delta_t = (parabolic_max(xcorr)[0] - x.shape[0] + 1) * tbin
     # do a first assignment at a DT threshold
     ib = np.zeros(tsa.shape, dtype=np.int32) - 1
     threshold = tbin
